@@ -800,3 +800,255 @@ Proof.
   - destruct (z =? 0)%Z eqn:E; [|reflexivity]. apply Z.eqb_eq in E. subst z. exfalso. apply Hz. reflexivity.
   - rewrite (parsed_float_not_nan t b Hp). reflexivity.
 Qed.
+
+(* ================================================================ to_string / to_pretty_string *)
+(* A text input is returned as it is (only the empty input becomes "null"), an encoding is rendered: the two outputs
+   are different texts in general ("-0" / "0", "1e2" / "100.0", white space) but DENOTE THE SAME DOCUMENT: both parse,
+   and to values that compare Equal to v.  The rendering of the encoding is read back under the usual hypothesis on
+   the float printer (TextRoundtrip.float_reads_back for every float of the decoded document; none needed when the
+   document has no floats: to_string_forms_no_float). *)
+From JB Require TreeWf TextRoundtrip.
+
+Definition same_document (r : list N) (v : value) : Prop := exists v', parse_value r = Ok v' /\ cmp_value v' v = Eq.
+
+Lemma parse_value_nil : parse_value [] = Err EOther.
+Proof. reflexivity. Qed.
+
+Theorem to_text_forms pf ok pretty t v : (forall b, ok b = true -> TextRoundtrip.float_reads_back pf b) ->
+  wfb v = true -> TextRoundtrip.floats_ok ok (normalise v) = true -> stands_for t v ->
+  exists r, to_text_w pf pretty t = Ok r /\ same_document r v.
+Proof.
+  intros Hok W Hf [[-> T]|[Ht Hp]].
+  - exists (render pf pretty 0 (normalise v)). split.
+    + destruct pretty; [apply (to_pretty_string_w_enc pf v W T)|apply (to_string_w_enc pf v W T)].
+    + exists (SerdeProofs.unsign (normalise v)). split.
+      * apply (TextRoundtrip.parse_rendering_floats pf pretty ok Hok); [|exact Hf].
+        apply TreeWf.wf_normalise. unfold wfb in W. apply andb_true_iff in W. apply W.
+      * rewrite <- (cmp_value_eq_l (SerdeProofs.unsign (normalise v)) (normalise v) v (SerdeProofs.unsign_equal _)).
+        apply normalise_equal.
+  - exists t. split.
+    + unfold to_text_w. rewrite Ht. destruct t; [rewrite parse_value_nil in Hp; discriminate Hp|reflexivity].
+    + exists v. split; [exact Hp|apply cmp_value_refl].
+Qed.
+Theorem to_string_forms pf ok t v : (forall b, ok b = true -> TextRoundtrip.float_reads_back pf b) ->
+  wfb v = true -> TextRoundtrip.floats_ok ok (normalise v) = true -> stands_for t v ->
+  exists r, to_string_w' pf t = Ok r /\ same_document r v.
+Proof. apply to_text_forms. Qed.
+Theorem to_pretty_string_forms pf ok t v : (forall b, ok b = true -> TextRoundtrip.float_reads_back pf b) ->
+  wfb v = true -> TextRoundtrip.floats_ok ok (normalise v) = true -> stands_for t v ->
+  exists r, to_pretty_string_w' pf t = Ok r /\ same_document r v.
+Proof. apply to_text_forms. Qed.
+
+Lemma floats_ok_normalise_none v : TextRoundtrip.no_float v = true -> TextRoundtrip.no_float (normalise v) = true.
+Proof.
+  unfold TextRoundtrip.no_float.
+  induction v as [|b|s|n|l IH|o IH] using value_ind2; intros H; cbn [normalise]; try exact H.
+  - destruct n as [z|u|b]; cbn [normalise_num]; [destruct (z =? 0)%Z; reflexivity|reflexivity|discriminate H].
+  - cbn [TextRoundtrip.floats_ok] in *. rewrite forallb_forall in *. intros x Hx. apply in_map_iff in Hx.
+    destruct Hx as (y & <- & Hy). rewrite Forall_forall in IH. apply (IH y Hy). apply H. exact Hy.
+  - cbn [TextRoundtrip.floats_ok] in *. rewrite forallb_forall in *. intros x Hx. apply in_map_iff in Hx.
+    destruct Hx as (y & <- & Hy). cbn [snd]. rewrite Forall_forall in IH. apply (IH y Hy). apply H. exact Hy.
+Qed.
+Theorem to_text_forms_no_float pf pretty t v : wfb v = true -> TextRoundtrip.no_float v = true -> stands_for t v ->
+  exists r, to_text_w pf pretty t = Ok r /\ same_document r v.
+Proof.
+  intros W Hn S. apply (to_text_forms pf (fun _ => false) pretty t v); [intros b H; discriminate H|exact W| |exact S].
+  apply floats_ok_normalise_none. exact Hn.
+Qed.
+
+(* ================================================================ parse_lazy_value and LazyValue's functions *)
+(* LazyValue::Raw keeps the JSONB bytes, LazyValue::Value holds the parsed tree: to_vec gives the same bytes,
+   array_length the same answer, to_value the same document up to normalise (Int64(0) for the text `-0`, UInt64(0) for
+   its encoding: the same case as as_number). *)
+Lemma array_length_t_normalise v : array_length_t (normalise v) = array_length_t v.
+Proof. destruct v; try reflexivity. cbn [normalise array_length_t]. rewrite lenN_map. reflexivity. Qed.
+
+Theorem parse_lazy_value_forms t v : wfb v = true -> stands_for t v ->
+  exists lv, parse_lazy_value t = Ok lv /\
+             lazy_to_vec lv = enc v /\
+             lazy_array_length lv = Ok (array_length_t v) /\
+             exists v', lazy_to_value lv = Ok v' /\ normalise v' = normalise v.
+Proof.
+  intros W [[-> T]|[Ht Hp]].
+  - exists (LRaw (enc v)). split; [unfold parse_lazy_value; rewrite (is_jsonb_enc v W T); reflexivity|].
+    split; [reflexivity|]. split.
+    + cbn [lazy_array_length]. unfold array_length_m. rewrite (doc_of_enc v W T). cbn [lift_opt].
+      rewrite array_length_t_normalise. reflexivity.
+    + exists (normalise v). split; [cbn [lazy_to_value]; rewrite (from_slice_enc v W); reflexivity|apply normalise_idem].
+  - exists (LValue v). split; [unfold parse_lazy_value; rewrite Ht, Hp; reflexivity|].
+    split; [apply to_vec_text; exact W|]. split; [destruct v; reflexivity|].
+    exists v. split; reflexivity.
+Qed.
+
+(* ================================================================ C11: the same answer for every form *)
+(* t1 and t2 stand for the same document (each is its encoding or a text of it); likewise u1, u2 for a second document *)
+Section SameAnswer.
+  Variables (t1 t2 : list N) (v : value).
+  Hypothesis W : wfb v = true.
+  Hypothesis S1 : stands_for t1 v.
+  Hypothesis S2 : stands_for t2 v.
+
+  Theorem C11_array_length_same_answer : array_length_w t1 = array_length_w t2.
+  Proof. rewrite (array_length_forms t1 v W S1), (array_length_forms t2 v W S2). reflexivity. Qed.
+  Theorem C11_get_by_index_same_answer i : get_by_index_w t1 i = get_by_index_w t2 i.
+  Proof. rewrite (get_by_index_forms t1 v W S1), (get_by_index_forms t2 v W S2). reflexivity. Qed.
+  Theorem C11_get_by_name_same_answer name ic : get_by_name_w t1 name ic = get_by_name_w t2 name ic.
+  Proof. rewrite (get_by_name_forms t1 v W S1), (get_by_name_forms t2 v W S2). reflexivity. Qed.
+  Theorem C11_get_by_keypath_same_answer ks : get_by_keypath_w t1 ks = get_by_keypath_w t2 ks.
+  Proof. rewrite (get_by_keypath_forms t1 v W S1), (get_by_keypath_forms t2 v W S2). reflexivity. Qed.
+  Theorem C11_object_keys_same_answer : object_keys_w t1 = object_keys_w t2.
+  Proof. rewrite (object_keys_forms t1 v W S1), (object_keys_forms t2 v W S2). reflexivity. Qed.
+  Theorem C11_object_each_same_answer : object_each_w t1 = object_each_w t2.
+  Proof. rewrite (object_each_forms t1 v W S1), (object_each_forms t2 v W S2). reflexivity. Qed.
+  Theorem C11_array_values_same_answer : array_values_w t1 = array_values_w t2.
+  Proof. rewrite (array_values_forms t1 v W S1), (array_values_forms t2 v W S2). reflexivity. Qed.
+  Theorem C11_exists_keys_same_answer ks :
+    exists_all_keys_w t1 ks = exists_all_keys_w t2 ks /\ exists_any_keys_w t1 ks = exists_any_keys_w t2 ks.
+  Proof.
+    rewrite (exists_all_keys_forms t1 v W S1), (exists_all_keys_forms t2 v W S2),
+            (exists_any_keys_forms t1 v W S1), (exists_any_keys_forms t2 v W S2). split; reflexivity.
+  Qed.
+  Theorem C11_traverse_check_string_same_answer needle : traverse_check_string_w t1 needle = traverse_check_string_w t2 needle.
+  Proof. rewrite (traverse_check_string_forms t1 v W S1), (traverse_check_string_forms t2 v W S2). reflexivity. Qed.
+  Theorem C11_to_serde_json_same_answer :
+    to_serde_json_w t1 = to_serde_json_w t2 /\ to_serde_json_object_w t1 = to_serde_json_object_w t2.
+  Proof.
+    rewrite (to_serde_json_forms t1 v W S1), (to_serde_json_forms t2 v W S2),
+            (to_serde_json_object_forms t1 v W S1), (to_serde_json_object_forms t2 v W S2). split; reflexivity.
+  Qed.
+  Theorem C11_type_of_same_answer : type_of_w t1 = type_of_w t2.
+  Proof. rewrite (type_of_forms t1 v W S1), (type_of_forms t2 v W S2). reflexivity. Qed.
+  (* is_null/as_null, is_boolean/as_bool, is_string/as_str, is_array, is_object, is_i64/as_i64, is_u64/as_u64, is_f64/as_f64 *)
+  Theorem C11_as_casts_same_answer :
+    as_null_w t1 = as_null_w t2 /\ as_bool_w t1 = as_bool_w t2 /\ as_str_w t1 = as_str_w t2 /\
+    is_array_w t1 = is_array_w t2 /\ is_object_w t1 = is_object_w t2 /\
+    as_i64_w t1 = as_i64_w t2 /\ as_u64_w t1 = as_u64_w t2 /\ as_f64_w t1 = as_f64_w t2.
+  Proof.
+    rewrite (as_null_forms t1 v W S1), (as_null_forms t2 v W S2), (as_bool_forms t1 v W S1), (as_bool_forms t2 v W S2),
+            (as_str_forms t1 v W S1), (as_str_forms t2 v W S2), (is_array_forms t1 v W S1), (is_array_forms t2 v W S2),
+            (is_object_forms t1 v W S1), (is_object_forms t2 v W S2), (as_i64_forms t1 v W S1), (as_i64_forms t2 v W S2),
+            (as_u64_forms t1 v W S1), (as_u64_forms t2 v W S2), (as_f64_forms t1 v W S1), (as_f64_forms t2 v W S2).
+    repeat split; reflexivity.
+  Qed.
+  Theorem C11_to_casts_same_answer :
+    to_bool_w t1 = to_bool_w t2 /\ to_i64_w t1 = to_i64_w t2 /\ to_u64_w t1 = to_u64_w t2 /\
+    to_f64_w t1 = to_f64_w t2 /\ to_str_w t1 = to_str_w t2.
+  Proof.
+    rewrite (to_bool_forms t1 v W S1), (to_bool_forms t2 v W S2), (to_i64_forms t1 v W S1), (to_i64_forms t2 v W S2),
+            (to_u64_forms t1 v W S1), (to_u64_forms t2 v W S2), (to_f64_forms t1 v W S1), (to_f64_forms t2 v W S2),
+            (to_str_forms t1 v W S1), (to_str_forms t2 v W S2).
+    repeat split; reflexivity.
+  Qed.
+  (* as_number / is_number: the same number, up to the variant of the integer zero (Int64(0) for the text `-0`) *)
+  Theorem C11_as_number_same_answer :
+    exists o1 o2, as_number_w t1 = Ok o1 /\ as_number_w t2 = Ok o2 /\
+                  option_map normalise_num o1 = option_map normalise_num o2 /\
+                  (match o1 with Some _ => true | None => false end) = (match o2 with Some _ => true | None => false end).
+  Proof.
+    destruct (as_number_forms t1 v W S1) as (o1 & E1 & H1). destruct (as_number_forms t2 v W S2) as (o2 & E2 & H2).
+    exists o1, o2. split; [exact E1|]. split; [exact E2|]. split; [congruence|].
+    destruct o1, o2; cbn [option_map] in *; try reflexivity; congruence.
+  Qed.
+  Theorem C11_convert_to_comparable_same_answer buf : comparable_w t1 buf = comparable_w t2 buf.
+  Proof. rewrite (comparable_forms t1 v buf W S1), (comparable_forms t2 v buf W S2). reflexivity. Qed.
+
+  Theorem C11_delete_same_answer name i ks buf :
+    delete_by_name_w t1 name buf = delete_by_name_w t2 name buf /\
+    delete_by_index_w t1 i buf = delete_by_index_w t2 i buf /\
+    delete_by_keypath_w t1 ks buf = delete_by_keypath_w t2 ks buf.
+  Proof.
+    rewrite (delete_by_name_forms t1 v W S1), (delete_by_name_forms t2 v W S2), (delete_by_index_forms t1 v W S1),
+            (delete_by_index_forms t2 v W S2), (delete_by_keypath_forms t1 v W S1), (delete_by_keypath_forms t2 v W S2).
+    repeat split; reflexivity.
+  Qed.
+  Theorem C11_object_filter_same_answer ks buf :
+    object_delete_w t1 ks buf = object_delete_w t2 ks buf /\ object_pick_w t1 ks buf = object_pick_w t2 ks buf.
+  Proof.
+    rewrite (object_delete_forms t1 v ks buf W S1), (object_delete_forms t2 v ks buf W S2),
+            (object_pick_forms t1 v ks buf W S1), (object_pick_forms t2 v ks buf W S2). split; reflexivity.
+  Qed.
+  Theorem C11_strip_nulls_same_answer buf : strip_nulls_w t1 buf = strip_nulls_w t2 buf.
+  Proof. rewrite (strip_nulls_forms t1 v W S1), (strip_nulls_forms t2 v W S2). reflexivity. Qed.
+  Theorem C11_array_distinct_same_answer buf : wf_size (array_distinct_t v) = true -> array_distinct_w t1 buf = array_distinct_w t2 buf.
+  Proof. intros H. rewrite (array_distinct_forms t1 v buf W S1 H), (array_distinct_forms t2 v buf W S2 H). reflexivity. Qed.
+
+  (* get_by_path (MMixed) / get_by_path_first (MFirst) / get_by_path_array (MArray), path_exists, path_match *)
+  Theorem C11_path_same_answer md ps buf :
+    get_by_path_gen_w md t1 ps buf = get_by_path_gen_w md t2 ps buf /\
+    path_exists_w t1 ps = path_exists_w t2 ps /\ path_match_w t1 ps = path_match_w t2 ps.
+  Proof.
+    rewrite (get_by_path_gen_forms md t1 v ps buf W S1), (get_by_path_gen_forms md t2 v ps buf W S2),
+            (path_exists_forms t1 v ps W S1), (path_exists_forms t2 v ps W S2),
+            (path_match_forms t1 v ps W S1), (path_match_forms t2 v ps W S2). repeat split; reflexivity.
+  Qed.
+
+  (* to_string / to_pretty_string: both outputs are JSON texts of documents that compare Equal *)
+  Theorem C11_to_string_same_document pf ok pretty : (forall b, ok b = true -> TextRoundtrip.float_reads_back pf b) ->
+    TextRoundtrip.floats_ok ok (normalise v) = true ->
+    exists r1 r2 d1 d2, to_text_w pf pretty t1 = Ok r1 /\ to_text_w pf pretty t2 = Ok r2 /\
+                        parse_value r1 = Ok d1 /\ parse_value r2 = Ok d2 /\ cmp_value d1 d2 = Eq.
+  Proof.
+    intros Hok Hf. destruct (to_text_forms pf ok pretty t1 v Hok W Hf S1) as (r1 & E1 & d1 & P1 & C1).
+    destruct (to_text_forms pf ok pretty t2 v Hok W Hf S2) as (r2 & E2 & d2 & P2 & C2).
+    exists r1, r2, d1, d2. repeat split; try assumption.
+    rewrite <- (cmp_value_eq_l d1 v d2 C1). rewrite (cmp_value_eq_r v d2 v C2). apply cmp_value_refl.
+  Qed.
+
+  (* parse_lazy_value, then LazyValue::to_vec / array_length / to_value *)
+  Theorem C11_lazy_value_same_answer :
+    exists l1 l2, parse_lazy_value t1 = Ok l1 /\ parse_lazy_value t2 = Ok l2 /\
+                  lazy_to_vec l1 = lazy_to_vec l2 /\ lazy_array_length l1 = lazy_array_length l2 /\
+                  exists d1 d2, lazy_to_value l1 = Ok d1 /\ lazy_to_value l2 = Ok d2 /\ normalise d1 = normalise d2.
+  Proof.
+    destruct (parse_lazy_value_forms t1 v W S1) as (l1 & P1 & V1 & A1 & d1 & D1 & N1).
+    destruct (parse_lazy_value_forms t2 v W S2) as (l2 & P2 & V2 & A2 & d2 & D2 & N2).
+    exists l1, l2. repeat split; try assumption; try congruence. exists d1, d2. repeat split; try assumption. congruence.
+  Qed.
+
+  (* ---- functions of two documents: every argument position independently ---- *)
+  Variables (u1 u2 : list N) (x : value).
+  Hypothesis Wx : wfb x = true.
+  Hypothesis X1 : stands_for u1 x.
+  Hypothesis X2 : stands_for u2 x.
+
+  (* C04, last sentence *)
+  Theorem C11_compare_same_answer : compare_w t1 u1 = compare_w t2 u2.
+  Proof. rewrite (compare_forms t1 u1 v x W Wx S1 X1), (compare_forms t2 u2 v x W Wx S2 X2). reflexivity. Qed.
+  Theorem C11_contains_same_answer :
+    (is_jsonb t1 = false -> small_text t1) -> (is_jsonb t2 = false -> small_text t2) ->
+    (is_jsonb u1 = false -> small_text u1) -> (is_jsonb u2 = false -> small_text u2) ->
+    contains_w t1 u1 = contains_w t2 u2.
+  Proof.
+    intros A1 A2 B1 B2. rewrite (contains_forms t1 u1 v x W Wx S1 X1 A1 B1), (contains_forms t2 u2 v x W Wx S2 X2 A2 B2). reflexivity.
+  Qed.
+  Theorem C11_concat_same_answer buf : wf_size (concat_t v x) = true ->
+    (is_jsonb t1 = false -> small_text t1) -> (is_jsonb t2 = false -> small_text t2) ->
+    (is_jsonb u1 = false -> small_text u1) -> (is_jsonb u2 = false -> small_text u2) ->
+    concat_w t1 u1 buf = concat_w t2 u2 buf.
+  Proof.
+    intros Hr A1 A2 B1 B2.
+    rewrite (concat_forms t1 u1 v x buf W Wx S1 X1 A1 B1 Hr), (concat_forms t2 u2 v x buf W Wx S2 X2 A2 B2 Hr). reflexivity.
+  Qed.
+  Theorem C11_array_insert_same_answer pos buf : wf_size (array_insert_t v pos x) = true ->
+    array_insert_w t1 pos u1 buf = array_insert_w t2 pos u2 buf.
+  Proof.
+    intros Hr. rewrite (array_insert_forms t1 u1 v x pos buf W Wx S1 X1 Hr), (array_insert_forms t2 u2 v x pos buf W Wx S2 X2 Hr). reflexivity.
+  Qed.
+  Theorem C11_object_insert_same_answer key upd buf : (forall y, object_insert_t v key x upd = Ok y -> wf_size y = true) ->
+    object_insert_w t1 key u1 upd buf = object_insert_w t2 key u2 upd buf.
+  Proof.
+    intros Hr. rewrite (object_insert_forms t1 u1 v x key upd buf W Wx S1 X1 Hr), (object_insert_forms t2 u2 v x key upd buf W Wx S2 X2 Hr).
+    reflexivity.
+  Qed.
+  Theorem C11_array_set_same_answer buf :
+    wf_size (array_intersection_t v x) = true -> wf_size (array_except_t v x) = true ->
+    array_intersection_w t1 u1 buf = array_intersection_w t2 u2 buf /\
+    array_except_w t1 u1 buf = array_except_w t2 u2 buf /\
+    array_overlap_w t1 u1 = array_overlap_w t2 u2.
+  Proof.
+    intros Hi He.
+    rewrite (array_intersection_forms t1 u1 v x buf W Wx S1 X1 Hi), (array_intersection_forms t2 u2 v x buf W Wx S2 X2 Hi),
+            (array_except_forms t1 u1 v x buf W Wx S1 X1 He), (array_except_forms t2 u2 v x buf W Wx S2 X2 He),
+            (array_overlap_forms t1 u1 v x W Wx S1 X1), (array_overlap_forms t2 u2 v x W Wx S2 X2). repeat split; reflexivity.
+  Qed.
+End SameAnswer.
